@@ -78,7 +78,7 @@ package plugin
 //@ pred nn(x) := ite(x != nil, 1, 0)
 
 //@ func (*Client).Start
-//@   nopanic [C01.d] [C03.d]
+//@   nopanic [C01.d] [C03.d] [C14.nopanic] [C05.nopanic]
 //@   bounded always [C01.e]
 //@   requires valid_client(c) && valid_reattach(c)
 //@   requires !held(c.l)
@@ -291,3 +291,66 @@ package plugin
 //@   local cc_killed: Bool := false
 //@   after call (*Client).Kill#1 set cc_killed := true
 //@   at call (*sync.WaitGroup).Done#1 assert cc_killed   [C04.cleanup]
+
+//@ pred Hc(vs, x) := vs != "" && (exists u :: 0 <= u && u < split_n(vs, ",") && atoi_ok(split_arr(vs, ",")[u]) && atoi_val(split_arr(vs, ",")[u]) == x)
+
+//@ func protocolVersion
+//@   nopanic [C02.total] [C16.total]
+//@   nonblocking
+//@   requires opts != nil
+//@   modifies opts.VersionedPlugins, heap, Hset, Hidx, Hsrc
+//@   local Hset: set[Int] := emptyset("Int")
+//@   local Hidx: map[Int]Int := Hidx
+//@   local Hsrc: map[Int]Int := Hsrc
+//@   entry pv0 := toint(opts.ProtocolVersion)
+//@   entry P0 := opts.Plugins
+//@   entry D0 := domain(opts.VersionedPlugins)
+//@   entry V0 := values(opts.VersionedPlugins)
+//@   after call os.Getenv#1 bind vs: Str := ret
+//@   at call append#1 set Hset := Hset[arg1[0] := true]
+//@   at call append#1 set Hidx := Hidx[arg1[0] := len(arg0)]
+//@   at call append#1 set Hsrc := Hsrc[arg1[0] := rangeindex + 1]
+//@   loop#1 invariant cap(clientVersions) == 0 || fresh(clientVersions)
+//@   loop#1 frame fresh_only
+//@   loop#1 invariant rangeindex + 1 <= split_n(vs, ",")
+//@   loop#1 invariant forall t :: 0 <= t && t < len(clientVersions) ==> Hset[clientVersions[t]]
+//@   loop#1 invariant forall x :: Hset[x] ==> 0 <= Hidx[x] && Hidx[x] < len(clientVersions) && clientVersions[Hidx[x]] == x
+//@   loop#1 invariant forall x :: Hset[x] ==> 0 <= Hsrc[x] && Hsrc[x] <= rangeindex && atoi_ok(split_arr(vs, ",")[Hsrc[x]]) && atoi_val(split_arr(vs, ",")[Hsrc[x]]) == x
+//@   loop#1 invariant forall u :: 0 <= u && u <= rangeindex && atoi_ok(split_arr(vs, ",")[u]) ==> Hset[atoi_val(split_arr(vs, ",")[u])]
+//@   at call sort.Sort#1 bind cv0 := unbox(rev_of(arg0), "sort.IntSlice")
+//@   at call sort.Sort#1 bind cvE := elems(unbox(rev_of(arg0), "sort.IntSlice"))
+//@   at call sort.Reverse#1 assert forall x :: Hset[x] ==> Hc(vs, x)   [C02.parse]
+//@   at call sort.Reverse#1 assert forall x :: Hc(vs, x) ==> Hset[x]   [C02.parse]
+//@   after call sort.Sort#1 assert forall t :: 0 <= t && t < len(cv0) ==> Hset[cv0[t]]   [C02.sorted]
+//@   after call sort.Sort#1 assert forall x :: Hset[x] ==> 0 <= sort_perm(cvE, Hidx[x]) && sort_perm(cvE, Hidx[x]) < len(cv0) && cv0[sort_perm(cvE, Hidx[x])] == x   [C02.sorted]
+//@   loop#2 invariant 0 <= rpos1 && rpos1 <= rn1 && len(versions) == rpos1
+//@   loop#2 invariant forall j :: 0 <= j && j < rpos1 ==> versions[j] == rkeys1[j]
+//@   loop#2 invariant cap(versions) == 0 || (fresh(versions) && base(versions) != base(cv0))
+//@   loop#2 invariant elems(cv0) == at_loop(elems(cv0))
+//@   loop#2 frame fresh_only
+//@   at call sort.Sort#2 bind vs0 := unbox(rev_of(arg0), "sort.IntSlice")
+//@   at call sort.Sort#2 bind vsE := elems(unbox(rev_of(arg0), "sort.IntSlice"))
+//@   at call sort.Sort#2 bind cvE2 := elems(cv0)
+//@   after call sort.Sort#2 assert elems(cv0) == cvE2 && len(vs0) == rn1   [C02.sorted]
+//@   after call sort.Sort#2 assert forall j :: 0 <= j && j < len(vs0) ==> rdom1[vs0[j]]   [C02.sorted]
+//@   after call sort.Sort#2 assert forall x :: rdom1[x] ==> 0 <= sort_perm(vsE, ridx1(x)) && sort_perm(vsE, ridx1(x)) < len(vs0) && vs0[sort_perm(vsE, ridx1(x))] == x   [C02.sorted]
+//@   loop#3 invariant forall j :: 0 <= j && j <= rangeindex ==> !Hset[vs0[j]]
+//@   loop#3 invariant rangeindex == 0 - 1 ==> protoVersion == pv0 && pluginSet == P0 && protoType == "netrpc"
+//@   loop#3 invariant rangeindex >= 0 ==> protoVersion == vs0[rangeindex] && pluginSet == rvals1[vs0[rangeindex]]
+//@   loop#3 invariant rangeindex + 1 <= len(vs0)
+//@   loop#3 invariant opts.GRPCServer == nil ==> protoType == "netrpc"
+//@   loop#4 invariant forall t :: 0 <= t && t <= rangeindex ==> cv0[t] != vs0[rangeindex#3 + 1]
+//@   loop#4 invariant rangeindex + 1 <= len(cv0)
+//@   loop#4 invariant Hset[vs0[rangeindex#3 + 1]] ==> sort_perm(cvE, Hidx[vs0[rangeindex#3 + 1]]) > rangeindex
+//@   pred Sv(x) := D0[x] || (P0 != nil && x == pv0)
+//@   at call sort.Reverse#2 assert forall x :: rdom1[x] ==> Sv(x)   [C02.fold]
+//@   at call sort.Reverse#2 assert forall x :: Sv(x) ==> rdom1[x]   [C02.fold]
+//@   at return#2 assert Hset[result0] && rdom1[result0]   [C02.max]
+//@   at return#2 assert forall y :: rdom1[y] && Hset[y] ==> y <= result0   [C02.max]
+//@   at return#1 assert forall y :: rdom1[y] ==> !Hset[y]   [C02.min]
+//@   at return#1 assert (exists z :: rdom1[z]) ==> rdom1[result0] && (forall y :: rdom1[y] ==> result0 <= y)   [C02.min]
+//@   ensures (exists x :: Sv(x) && Hc(vs, x)) ==> Sv(result0) && Hc(vs, result0) && (forall y :: Sv(y) && Hc(vs, y) ==> y <= result0)   [C02.max]
+//@   ensures !(exists x :: Sv(x) && Hc(vs, x)) && (exists z :: Sv(z)) ==> Sv(result0) && (forall y :: Sv(y) ==> result0 <= y)   [C02.min]
+//@   ensures !(exists x :: Sv(x)) ==> result0 == pv0 && result2 == P0 && result1 == "netrpc"   [C02.none]
+//@   ensures (exists x :: Sv(x)) ==> result2 == ite(P0 != nil && result0 == pv0, P0, V0[result0])   [C02.set]
+//@   ensures opts.GRPCServer == nil ==> result1 == "netrpc"   [C02.proto]
